@@ -33,7 +33,17 @@
    unrelated to the database), and only the properties that do not depend on an honest c# are claimed.
 
    `out` is the set of externally visible effects of the last step (what the harness observes while the
-   loop settles). *)
+   loop settles), as triples <<kind, x, y>>:
+     "dpoll"    _process_disconnected_events was called        "endp"   _async_endpoint_changed was called
+     "tcp",a,p  connection attempt to address set a, port p    "req",n  request reached the accessory (1 GET
+     "notify",c config-changed listeners called with c                   /accessories, 2 POST /pairings)
+     "ret_list",ok / "ret_rm",ok   the application's call returned (1) or raised (0)
+     "resolve"  a slow resolution (_async_handle_service) was started
+
+   Configurations: ZcLifecycle_MCh (honest c#), _MCn (arbitrary c#), _MC2 (re-pairing), _MC (thorough),
+   _cov (vacuity guard), _neg (tree before fix EXTZC-1, must be refuted), _sim (-simulate, SimSpec),
+   ZcLifecycle_Trace (trace validation).  The module describes the REPAIRED code: NormalisedRemove = TRUE
+   (proposed_fixes/EXTZC-1) and description updates ignored after shutdown (Handle; proposed_fixes/EXTZC-2). *)
 EXTENDS Integers, Sequences, FiniteSets, TLC
 
 CONSTANTS Addrs, Ports, CfgNums, StateNums,   \* domains of the advertised record
@@ -45,6 +55,8 @@ CONSTANTS Addrs, Ports, CfgNums, StateNums,   \* domains of the advertised recor
           IdCases,           \* case of AccessoryPairingID in the pairing data: subset of {"lower", "upper"}
           HonestModes,       \* subset of BOOLEAN
           AnswerKinds,       \* subset of {"ok", "err", "garbage", "close"}
+          Restores,          \* restore_accessories_state calls considered: 10 * config_num + database version
+          DecSpawn,          \* subset of BOOLEAN: may a c# BELOW the held one start a re-read ({FALSE}: this code)
           NormalisedRemove   \* TRUE: remove_pairing drops the pairing under the normalised (lower-case) id
                              \* the transport controller filed it under (repaired); FALSE: under pairing.id
 
@@ -90,10 +102,12 @@ ListFail(qq) == If(Has(qq, "list"), {O("ret_list", 0, 0)})
 
 \* ------------------------------------------------------------------ the pairing's description update
 \* pairing._async_description_update(r) on a pairing that is not shut down, holding description d, config
-\* number cfg, queue qq, connection wanted u
-Upd(r, d, cfg, qq, u) ==
-    LET spawn == r.c > cfg
-        poll  == ~spawn /\ (d = None \/ r.s # d[1].s)
+\* number cfg, queue qq, connection wanted u; spawn: a config-change task is started
+\* A c# above the one the pairing holds starts a config-change task; an equal one does not.  A LOWER one
+\* (decrease, wrap at 65535, accessory reset) does not in this code; the module leaves that case open.
+Spawns(r, cfg) == IF r.c > cfg THEN {TRUE} ELSE IF r.c < cfg THEN DecSpawn ELSE {FALSE}
+Upd(r, d, cfg, qq, u, spawn) ==
+    LET poll  == ~spawn /\ (d = None \/ r.s # d[1].s)
         endp  == d = None \/ d[1].a # r.a \/ d[1].p # r.p
     IN [pdesc |-> Some(r),
         q     |-> IF spawn THEN Append(qq, [k |-> "cfg", c |-> r.c]) ELSE qq,
@@ -104,7 +118,8 @@ Upd(r, d, cfg, qq, u) ==
 Handle(r) ==
     /\ disc' = Some(r)
     /\ IF gen > 0 /\ inCtl /\ ~shut
-       THEN LET u == Upd(r, pdesc, pcfg, q, up)
+       THEN \E sp \in Spawns(r, pcfg) :
+            LET u == Upd(r, pdesc, pcfg, q, up, sp)
             IN /\ pdesc' = u.pdesc /\ q' = u.q /\ out' = u.out /\ up' = TRUE /\ stale' = FALSE
                /\ UNCHANGED <<gen, idcase, inCtl, alias, shut, pcfg, pacc, cache, rm>>
        ELSE out' = {} /\ UNCHANGED pvars
@@ -155,7 +170,8 @@ Load ==
            acc0 == IF cache = None THEN 0 ELSE cache[1].a
        IN /\ pcfg' = cfg0 /\ pacc' = acc0
           /\ IF disc # None
-             THEN LET u == Upd(disc[1], None, cfg0, <<>>, FALSE)
+             THEN \E sp \in Spawns(disc[1], cfg0) :
+                  LET u == Upd(disc[1], None, cfg0, <<>>, FALSE, sp)
                   IN pdesc' = u.pdesc /\ q' = u.q /\ out' = u.out /\ up' = TRUE
              ELSE pdesc' = None /\ q' = <<>> /\ out' = {} /\ up' = FALSE
    
@@ -170,6 +186,18 @@ UserList ==
        ELSE /\ q' = Append(q, [k |-> "list", c |-> 0]) /\ up' = TRUE
             /\ out' = If(~up, TcpOut(pdesc)) \cup If(q = <<>>, {O("req", 1, 0)})
     /\ UNCHANGED <<zvars, disc, gen, idcase, inCtl, alias, shut, pdesc, pcfg, pacc, cache, rm, stale, accv, honest>>
+
+\* the application calls pairing.restore_accessories_state(accessories, config_num, ...) with a map it kept
+\* itself (Home Assistant does at start-up): adopted and written through.  (Restoring something older than
+\* the description already seen is not considered: nothing would trigger the re-read; nor restoring while a
+\* config-change task is in flight: the task would overwrite the restored number with its own.)
+UserRestore(c, v) ==
+    /\ gen > 0 /\ ~shut /\ rm = "no" /\ ~Has(q, "cfg")
+    /\ v <= accv /\ (honest => c = v)
+    /\ IF pdesc = None THEN TRUE ELSE c >= pdesc[1].c
+    /\ pcfg' = c /\ pacc' = v /\ cache' = Some([c |-> c, a |-> v])
+    /\ out' = {}
+    /\ UNCHANGED <<zvars, disc, gen, idcase, inCtl, alias, shut, up, pdesc, q, rm, stale, accv, honest>>
 
 \* Controller.remove_pairing(alias) up to its first suspension
 UserRemove ==
@@ -197,7 +225,7 @@ UserShutdown ==
    
     /\ UNCHANGED <<zvars, disc, gen, idcase, inCtl, alias, pdesc, pcfg, pacc, accv, honest>>
 
-\* end of Controller.remove_pairing: shutdown, the requests behind it fail, the cache entry is deleted.
+\* end of Controller.remove_pairing: shutdown, the other requests (rest) fail, the cache entry is deleted.
 \* res: 1 = returned normally, 0 = raised; tcp: the lost connection's connector got as far as a TCP connect
 \* before the shutdown cancelled it
 RmFinish(rest, res, tcp) ==
@@ -233,7 +261,7 @@ Answer(kind) ==
                  \* whether the call reports the failure is not claimed here (C04); the clean-up is
                  \E res \in {0, 1} : RmFinish(rest, res, FALSE)
             [] kind = "close" /\ Has(q, "rm") ->
-                 \E tcp \in BOOLEAN : RmFinish(rest, 0, tcp)
+                 \E tcp \in BOOLEAN : RmFinish(q, 0, tcp)          \* the head fails like the rest
             [] kind = "close" /\ ~Has(q, "rm") ->
                  \* every request queued for the lost connection fails; the connector reconnects at once,
                  \* to the endpoint of the current description
@@ -263,6 +291,7 @@ Init == /\ known = FALSE /\ zc = None /\ timer = FALSE /\ resolving = 0 /\ disc 
 Next == \/ \E r \in Recs : Announce(r)
         \/ AnnouncePtr \/ Remove \/ TimerFire \/ ResolveDone
         \/ Load \/ UserList \/ UserRemove \/ UserShutdown
+        \/ \E x \in Restores : UserRestore(x \div 10, x % 10)
         \/ \E k \in AnswerKinds : Answer(k)
         \/ \E v \in DbVers : DbChange(v)
 Spec == Init /\ [][Next]_vars
@@ -273,6 +302,7 @@ SimDb == \E v \in {RandomElement(DbVers)} : DbChange(v)
 SimNext == \/ SimAnnounce
            \/ AnnouncePtr \/ Remove \/ TimerFire \/ ResolveDone
            \/ Load \/ UserList \/ UserRemove \/ UserShutdown
+           \/ \E x \in Restores : UserRestore(x \div 10, x % 10)
            \/ \E k \in AnswerKinds : Answer(k)
            \/ SimDb
 SimSpec == Init /\ [][SimNext]_vars
@@ -326,4 +356,8 @@ RemovedMeansGone == rm = "done" => (~inCtl /\ ~alias /\ cache = None /\ q = <<>>
 NoUpdatesWhileRemoving == rm # "no" => ~inCtl
 \* P9  every connection attempt goes to the endpoint of the description the pairing holds at that moment
 ConnectsToLatest == \A o \in out : o[1] = "tcp" => <<o[2], o[3]>> = EndpointOf(pdesc)
+\* P10 no step lets an exception escape a zeroconf callback (browser callback, resolve-later timer, record
+\*     processing).  No action of this module produces the effect "raised"; an execution in which the harness
+\*     saw one is therefore rejected by trace validation.
+CallbackNeverRaises == \A o \in out : o[1] # "raised"
 =============================================================================
